@@ -37,6 +37,10 @@ def gen_case(rng):
         if kind in gen.PROC_KINDS:
             empty = kind == "run_command" and rng.random() < 0.2
             scripts[t["id"]] = {"steps": [] if empty else [["file", rng.choice(["r.txt", "sub/r.bin"]), realrun.b64(os.urandom(8))]]}
+            if kind == "run_command" and not empty and rng.random() < 0.12:
+                # the command keeps its results elsewhere and leaves a link where its output directory was
+                # (`mv $COND_OUT /big/disk/x && ln -s /big/disk/x $COND_OUT`): the directory it produced is what the link names
+                scripts[t["id"]]["steps"].append(["rmout", "replace-with-link"])
     cpkg = rng.choice(pk)
     deps = [t["id"] for t in tasks]
     rng.shuffle(deps)
